@@ -165,7 +165,7 @@ def parse_from_tags(chk):
     w.kind = 'witness'
     w.verdict = 'witness-ok' if npaths[0] >= 20 and 'filter-evaluated-over-all-inherited-tags' in obs else 'witness-missing'
     w.detail = '%d paths' % npaths[0]
-    chk.assumptions += ['parse_tags (tag text grammar: strip_prefix/split_once/parse/humantime) abstracted: arbitrary result per tag list; pinned only by the repo\'s nine retry_options unit tests',
+    chk.assumptions += ['parse_tags (tag text grammar: strip_prefix/split_once/parse/humantime) abstracted: arbitrary result per tag list; for the four documented tag shapes the real parser is decided separately (retry_tag_text: unknown count / delay texts); other texts: pinned only by the repo\'s nine retry_options unit tests',
                         'TagOperation::eval replaced by a recorder returning an arbitrary Boolean (its semantics: C15)']
 
 
@@ -254,6 +254,9 @@ def body(chk):
     cucumber_builders.obligations(chk, 'C18')
     from checks import runner_builders
     runner_builders.obligations(chk, 'C18', fields=('retries', 'retry_after', 'max_concurrent_scenarios', 'fail_fast'))
+    # the text grammar of the four documented tag shapes (the kernels above range over every RESULT of the per-tag parser)
+    from checks import retry_tag_text
+    retry_tag_text.obligations(chk, 'C18')
     # between the resolver and the scheduler: Features::insert stores, per scenario, what the resolver said for it in its own rule
     from checks import insert_retry
     insert_retry.obligations(chk, 'C18')
